@@ -262,7 +262,7 @@ func ruleInlineParsersAdvance(w *World, r *Report) {
 			r.Bad(key, w.Pos(s.pos), "a path returns a possibly non-nil node without any call that moves the reader: the inline loop would re-parse the same position forever")
 		}
 	}
-	r.Expect("InlineParser implementations", n, 10)
+	r.Expect("InlineParser implementations", n, 5)
 }
 
 // =============================== C01-L ============================================================
@@ -559,7 +559,7 @@ func ruleStuckCycles(w *World, r *Report) {
 		}
 	}
 	r.Quiet("C01-L: %d functions (%d reachable from the entry points), %d loops analysed, %d range loops skipped, %d pure cycles examined, %d stuck", len(fns), inReach, nLoops, nSkipped, nPure, nStuck)
-	r.Expect("hand-written loops analysed", nLoops, 120)
+	r.Expect("hand-written loops analysed", nLoops, 75)
 	r.Expect("pure cycles examined", nCycles, 300)
 }
 
